@@ -23,35 +23,75 @@ META = {
             "the helper question of the failing instruction); the argument conversion layer interpreted from the extracted "
             "ArgType table (arg_conversion_table / _mono) and every registered builtin called through its extracted "
             "signature (builtin_mono_of_sig; pure_builtin_independent_after_conversion for the builtins whose source never "
-            "reaches the mode; builtin_sites_as_modelled lists the ones that do); the per-site matrix. Ties: the model runs "
+            "reaches the mode; builtin_sites_as_modelled lists the ones that do); the per-site matrix (print / iterate / `*args` / truth / access / defined / default). Ties: the model runs "
             "the REAL compiled instruction streams of the generated programs (outputs compared under all four modes, three "
             "custom formatters included); the signature layer predicts, for every builtin call of the call/sweep streams, "
             "which modes fail in the conversion and that pure bodies agree across the modes that pass it (compared with the "
-            "engine); regenerated tables of helper calls per instruction arm and per builtin. The property itself is "
+            "engine); regenerated tables of helper calls per instruction arm and per builtin; the control-flow tree of the "
+            "Emit arm is regenerated too: the undefined check dominates every write and every exit of the arm, the only "
+            "condition in front of it is the choice of the formatter (emit_arm_check_dominates), the hand model of Emit is "
+            "the interpretation of that tree (emit_arm_is_model), and whether Emit fails does not depend on the output "
+            "routing -- live, capturing, discarding, null (emit_check_independent_of_output; the model carries the capture "
+            "stack with its discarding levels, BeginCapture(Discard), ExportLocals and module objects, so child templates "
+            "after extends and import / from-import run inside the machine). The property itself is "
             "evaluated on the real engine: pairwise monotonicity of the four results of every case, plus the documented "
-            "matrix on dedicated site templates.",
+            "matrix on dedicated site templates -- each of them in every output context (top level, block, macro, call "
+            "block, set block, filter block, autoescape block, loop body / else, with, if; top level of a child template "
+            "after extends = discarding, child block, parent block through super(), included template, import-as module, "
+            "from-import module = discarding, captures nested inside the discarding ones) and entry form (render, "
+            "render_captured, render_captured_to a writer / a sink, render_named_str, State::render_block(_to_write), "
+            "Expression::eval with its null output), with the default and with custom formatters.",
     "design_ref": "DESIGN.md §3 C12",
-    "level_note": "Trusted: Lean kernel; lib/tables/c12.py (translator: helper match rows, inline mode tests, every mention "
-                  "of the mode in minijinja/src + minijinja-contrib/src with its class, helper-call lists per instruction arm and "
-                  "per builtin, ArgType impl classification, builtin signatures and their reachability of the mode by regex + "
-                  "local call graph). The mode-independent operations are hand models validated by the correspondence stream "
-                  "only, or abstract parameters (Ops). The 26 builtins whose source reaches the mode are hand-modelled as "
-                  "their helper questions in source order (nested filter/test calls included) followed by an abstract "
-                  "mode-independent rest; that question structure is tied to the source by the extracted per-builtin helper "
-                  "lists and validated against the engine for every call of the call/sweep streams, not derived from the "
-                  "source. Outside the model (oracle streams only): auto-escaping and safe strings (join_safe / State::format "
-                  "/ escape with custom formats go through Environment::format), recursive loops, `*args` calls, from-imports, "
-                  "tuples, floats, custom objects, filters/tests added by the embedding application, the public Rust API "
-                  "(api stream). Observation (not a violation of the statement): slicing an undefined fails under Strict only, "
-                  "SemiStrict gives [] like Lenient -- monotone, and slicing is not a row of the documented matrix, but the "
-                  "one-line description of SemiStrict ('like Strict except truthiness') does not mention it.",
+    "level_note": "Trusted: Lean kernel; lib/tables/c12.py (translator: helper match rows, inline mode tests, the control-flow "
+                  "tree of the Emit arm, every mention of the mode in minijinja/src + minijinja-contrib/src with its class, helper-call "
+                  "lists per instruction arm and per builtin, ArgType impl classification, signatures of the builtins and of what "
+                  "minijinja-contrib registers and their reachability of the mode by regex + local call graph). The "
+                  "mode-independent operations are hand models validated by the correspondence stream only, or abstract "
+                  "parameters (Ops). The 26 builtins whose source reaches the mode are hand-modelled as their helper questions in "
+                  "source order (nested filter/test calls included) followed by an abstract mode-independent rest; that question "
+                  "structure is tied to the source by the extracted per-builtin helper lists and validated against the engine for "
+                  "every call of the call/sweep streams, not derived from the source. MOVED FROM VALIDATED (oracle streams only) TO "
+                  "PROVED (inside the model of mono_vm / step_mono, executed on the real instruction streams and compared): (1) "
+                  "the output routing -- capture stack with discarding levels, BeginCapture(Discard), the top level of a child "
+                  "template after extends, import-as and from-import with ExportLocals and module objects (attribute access and "
+                  "method calls on a module), CallBlock skipped while discarding; Emit's check proved independent of it "
+                  "(emit_check_independent_of_output) and the Emit arm tied by its regenerated control-flow tree "
+                  "(emit_arm_check_dominates, emit_arm_is_model); (2) auto-escaping and safe strings -- PushAutoEscape / "
+                  "PopAutoEscape, .html templates, write_escaped with the regenerated HTML escape table, safe captures / macro "
+                  "results / super(), the filters safe / escape / e / upper / lower / trim / string / first / last / default and the "
+                  "tests safe / escaped on safe strings, and join under auto-escaping: join_safe formats every non-safe item "
+                  "with State::format = Environment::format, which is its only question to the mode "
+                  "(join_safe_consults_mode_only_by_env_format; this is the site of seeded C12-4); (3) `*args` calls -- "
+                  "UnpackLists asks try_iter per batch (after fix e1cde55, see below), calls with a dynamic argument count; (4) the "
+                  "argument conversion layer for ANY signature: it asks assert_value_not_undefined only "
+                  "(conversion_consults_mode_only_by_assert_not_undef), so it has exactly the two behaviours Strict = SemiStrict and "
+                  "Lenient = Chainable and never fails at a question under the latter (conversion_mode_classes); which parameter "
+                  "types can consult the mode at all (param_consults_iff) and, from the regenerated table of the parameter types of all "
+                  "95 builtins and the 15 filters / globals of minijinja-contrib, exactly which parameters of which builtin do "
+                  "(builtin_params_consulting_mode: a builtin that starts to take an argument through a checking conversion, or a "
+                  "contrib function whose source starts to reach the mode, breaks it); the contrib filters / globals and pycompat's "
+                  "method callback are exercised like the builtins (streams callx / sweepx / pyx) and predicted from their "
+                  "signatures. STILL OUTSIDE THE MODEL (oracle streams only): recursive loops, tuples, floats, custom objects, bytes, "
+                  "one-shot iterators, the JSON / custom auto-escape formats (escape with a custom format goes through "
+                  "Environment::format), the bodies of replace / format / indent / title / capitalize with mixed safe and plain "
+                  "operands (abstract Ops.pureBody), the bodies of the contrib functions, filters/tests added by the embedding "
+                  "application (their conversion layer is covered by (4)), the public Rust API (api stream). DEFECT FOUND AND FIXED "
+                  "(e1cde55): `f(*u)` spread an undefined with Value::try_iter, ignoring the mode -- the one iteration site of the "
+                  "language outside the matrix; found by the new `iterate` site rows, UnpackLists now asks try_iter like "
+                  "merge_kwargs does for `**u`. Observations (not violations of the statement): slicing an undefined fails under "
+                  "Strict only, SemiStrict gives [] like Lenient -- monotone, and slicing is not a row of the documented matrix, but "
+                  "the one-line description of SemiStrict ('like Strict except truthiness') does not mention it; `{{ u|escape }}` "
+                  "(a `&Value` parameter, write_escaped without a check) renders '' under every mode although rustdoc lists 'string "
+                  "coercion in filters: fails' for Strict / SemiStrict; the filters that iterate their receiver with Value::try_iter "
+                  "(join, first, reverse, length ...) treat an undefined receiver the same under every mode, while list / min / max / "
+                  "sort / unique / batch / slice / sum / select* / map ask the mode.",
 }
 
 MODES = ["chainable", "lenient", "semistrict", "strict"]
-SITE_STREAMS = ("site", "fmt", "fmtv", "fmtc")
-MODEL_STREAMS = ("site", "fmt", "fmtv", "fmtc", "prog", "progv", "progc")
-NEEDED = ["C12_MODE_SITES", "C12_ARG_TYPES", "C12_BUILTIN_SIGS", "C12_MODES", "C12_HANDLE_UNDEFINED", "C12_IS_TRUE", "C12_ASSERT_ITERABLE", "C12_ASSERT_VALUE_NOT_UNDEFINED",
-          "C12_TRY_ITER", "C12_VM_EMIT", "C12_VM_SLICE", "C12_ENV_FORMAT", "C12_VM_SITES", "C12_BUILTIN_NAMES"]
+SITE_STREAMS = ("site", "sitea", "fmt", "fmtv", "fmtc")
+MODEL_STREAMS = ("site", "sitea", "fmt", "fmtv", "fmtc", "prog", "proga", "progv", "progc")
+NEEDED = ["C12_MODE_SITES", "C12_ARG_TYPES", "C12_BUILTIN_SIGS", "C12_CONTRIB_SIGS", "C12_MODES", "C12_HANDLE_UNDEFINED", "C12_IS_TRUE", "C12_ASSERT_ITERABLE", "C12_ASSERT_VALUE_NOT_UNDEFINED",
+          "C12_TRY_ITER", "C12_VM_EMIT", "C12_VM_EMIT_SHAPE", "C12_ROW_FNS", "C12_VM_SLICE", "C12_ENV_FORMAT", "C12_VM_SITES", "C12_BUILTIN_NAMES"]
 
 # the documented matrix per site class: which modes must fail with UndefinedError
 MATRIX = {
@@ -89,10 +129,24 @@ def cls(r):
     return "err:UndefinedError" if r == "err:UndefinedError" else "err:other"
 
 
+def root(r):
+    """`err:BadInclude/UndefinedError` (outermost kind / innermost kind) -> `err:UndefinedError`"""
+    if r.startswith("err:") and "/" in r:
+        return "err:" + r.split("/", 1)[1]
+    return r
+
+
+def top(r):
+    """`err:BadInclude/UndefinedError` -> `err:BadInclude` (what Error::kind() reports)"""
+    if r.startswith("err:") and "/" in r:
+        return r.split("/", 1)[0]
+    return r
+
+
 def builtin_of(stream, label):
     if stream.startswith("po-"):
         stream = stream[3:]
-    if stream in ("call", "sweep", "callh", "sweeph"):
+    if stream in ("call", "sweep", "callh", "sweeph", "callx", "sweepx"):
         p = label.split(":")
         return p[0] + ":" + p[1]
     return None
@@ -107,20 +161,21 @@ def judge(r, stream, label, src, rs):
         if rs[j].startswith("ok:"):
             for i in range(j):
                 if rs[i] != rs[j]:
-                    who = builtin_of(stream, label) or (label.split(":")[0] + ":" + src if stream in SITE_STREAMS or stream.startswith(("stmt", "api", "entry")) else "program")
+                    who = builtin_of(stream, label) or (label.split(":")[0] + ":" + src if stream in SITE_STREAMS or stream.startswith(("stmt", "api", "entry", "cx.")) else "program")
                     weak = rs[i] if not rs[i].startswith(("ok:", "panic:")) else rs[i].split(":")[0] + ":different-output" if rs[i].startswith("ok:") else "panic"
                     r.oracle_failure(case, f"{MODES[j]} renders {dec(rs[j])!r} but the weaker mode {MODES[i]} gives {dec(rs[i])!r}",
                                      f"mono:{stream}:{who}:{MODES[j]}-ok/{MODES[i]}-{weak}")
                     n += 1
-    # (2) the documented site matrix
-    if stream in SITE_STREAMS:
+    # (2) the documented site matrix (in the `cx.` streams: in every output context and entry form; an error raised in
+    # an included / imported template or in a block is judged by its innermost kind)
+    if stream in SITE_STREAMS or stream.startswith("cx."):
         klass, exp_hex = label.split(":")
         if klass in MATRIX:
             # `*`: the visible / counting formatters print other text; only ok-vs-error is judged there
             want_out = None if exp_hex == "*" else "ok:" + ("" if exp_hex == "-" else exp_hex)
             for i, must_fail in enumerate(MATRIX[klass]):
                 want = "err:UndefinedError" if must_fail else (want_out or "ok:<any output>")
-                if (rs[i] != want) if (must_fail or want_out) else (not rs[i].startswith("ok:")):
+                if (root(rs[i]) != want) if (must_fail or want_out) else (not rs[i].startswith("ok:")):
                     r.oracle_failure(case, f"site class `{klass}`: under {MODES[i]} expected {dec(want)!r}, engine gives {dec(rs[i])!r}",
                                      f"site:{stream}:{klass}:{src}:{MODES[i]}")
                     n += 1
@@ -129,7 +184,9 @@ def judge(r, stream, label, src, rs):
 
 def run(r):
     r.rule = ("site templates (documented matrix; default formatter and three custom formatters: delegating, one that prints "
-              "undefined as U and none as N, one counting its invocations); every builtin filter/test/function with a "
+              "undefined as U and none as N, one counting its invocations); the same site templates in 27 output contexts x 8 "
+              "entry forms x formatters (stream cx.<context>.<entry>.<formatter>: the matrix is judged in each, errors raised "
+              "inside an included / imported template or a block by their innermost kind); every builtin filter/test/function with a "
               "valid call in which each argument position (and pairs, arities, kwargs, block forms) is replaced by undefined / "
               "silent undefined / none / [x, undefined] / {'k': undefined} / a missing attribute; every builtin x receiver x "
               "argument lists of arity 0..2 (thorough: 3) over a pool of 11 operands; ~130 statement forms with an undefined "
@@ -168,6 +225,11 @@ def run(r):
         missing = sorted(set(registered.get(k, [])) - covered[k])
         if missing:
             r.broken.append(f"builtin {k}s registered in defaults.rs but not exercised by the harness: {missing}")
+    contrib = (st["items"].get("C12_CONTRIB_SIGS") or {}).get("rows", [])
+    for k in ("filter", "test", "function"):
+        missing = sorted({x["name"] for x in contrib if x["kind"] == k} - covered["contrib-" + k])
+        if missing:
+            r.broken.append(f"{k}s registered by minijinja-contrib but not exercised by the harness: {missing}")
     r.extra["builtins_covered"] = {k: len(v) for k, v in covered.items()}
     safe_fns = set()
     sp = st["items"].get("SAFE_PRODUCER_SITES") or {}
@@ -208,6 +270,12 @@ def run(r):
                 r.hist["error kinds"][x.split(":")[0] + ":" + (x.split(":")[1] if x.startswith("err:") else "")] += 1
         if stream in SITE_STREAMS:
             r.hist["site class"][label.split(":")[0]] += 1
+        if stream.startswith("cx."):
+            _, cxname, entry, fk = stream.split(".")
+            r.hist["site class"][label.split(":")[0]] += 1
+            r.hist["output context of the site (cx stream)"][cxname] += 1
+            r.hist["entry form (cx stream)"][entry] += 1
+            r.hist["formatter (cx stream; 0 default, 1 delegating, 2 visible, 3 counting)"][fk] += 1
         b = builtin_of(stream, label)
         if b:
             sensitivity[b].add(sh)
@@ -216,11 +284,12 @@ def run(r):
         if stream == "entry":
             r.hist["entry point / configuration"][label.split(":")[0]] += 1
         nfail = judge(r, stream, label, src, rs)
-        if prog.startswith("B ") and stream in ("call", "sweep"):
+        if prog.startswith("B ") and stream in ("call", "sweep", "callx", "sweepx"):
             b = prog.split(" ")
             name = bytes.fromhex(b[2]).decode()
             sig_cases[cid] = (b[1], name)
-            model_in.append("\t".join(["sig", cid, b[1], name] + b[3:]))
+            # `sigx`: looked up in the table of what minijinja-contrib registers
+            model_in.append("\t".join(["sigx" if stream.endswith("x") else "sig", cid, b[1], name] + b[3:]))
         elif prog != "-" and not prog.startswith("B "):
             model_in.append(line)
             n_prog_lines += 1
@@ -246,7 +315,7 @@ def run(r):
                         continue
                     r.count("po\t" + f[0] + "\t" + f[3], nontrivial=len(set(f[4:8])) > 1)
                     r.hist["stream"]["preserve_order:" + f[0]] += 1
-                    judge(r, "po-" + f[0], f[2] if f[0] in ("call", "sweep", "callh", "sweeph") else "po", f[3], f[4:8])
+                    judge(r, "po-" + f[0], f[2] if f[0] in ("call", "sweep", "callh", "sweeph", "callx", "sweepx") else "po", f[3], f[4:8])
 
     # correspondence: the Lean VM model on the real instruction streams
     model = r.driver("drive_c12", "\n".join(model_in) + "\n")
@@ -283,7 +352,7 @@ def run(r):
             body_modes = [i for i in range(4) if conv[i] == "body"]
             case = f"{stream}\t{src}"
             single = label.split(":")[-1]
-            if stream == "call" and good_ok.get(kind + ":" + name) and len(label.split(":")) == 3 and "=" in single \
+            if stream in ("call", "callx") and good_ok.get(kind + ":" + name) and len(label.split(":")) == 3 and "=" in single \
                     and "," not in single and "+" not in single and not single.startswith("extra"):
                 # (i) one argument of a valid call replaced: a predicted conversion error is the engine's error
                 for i in range(4):
@@ -338,7 +407,7 @@ def run(r):
             r.hist["model coverage"][("in the theorem fragment, not executable: " if infrag else "outside the fragment: ")
                                      + "_".join(what[12:].split("_")[:2])] += 1
             continue
-        if [cls(x) for x in ms] != [cls(x) for x in rs]:
+        if [cls(x) for x in ms] != [cls(top(x)) for x in rs]:
             r.model_disagreement(f"{stream}\t{src}", [dec(x) for x in rs], [dec(x) for x in ms])
         else:
             agree += 1
@@ -382,4 +451,12 @@ def replay(r, path):
             if rs[j].startswith("ok:") and any(rs[i] != rs[j] for i in range(j)):
                 print(f"  NOT MONOTONE: {MODES[j]} succeeds, a weaker mode differs")
                 rcode = 1
+        # the documented matrix of the site class recorded in the failure signature `site:<stream>:<class>:..`
+        sig = d.get("site", "").split(":")
+        klass = sig[2] if len(sig) > 2 and sig[0] == "site" else None
+        if klass in MATRIX:
+            for i, must_fail in enumerate(MATRIX[klass]):
+                if must_fail != (root(rs[i]) == "err:UndefinedError") or (not must_fail and not rs[i].startswith("ok:")):
+                    print(f"  MATRIX: site class `{klass}` must {'fail' if must_fail else 'succeed'} under {MODES[i]}, engine gives {dec(rs[i])}")
+                    rcode = 1
     return rcode
